@@ -30,8 +30,9 @@ VARIABLES loc,      \* loc[b]: ssids the local client of b is subscribed to
           bc, gs,   \* bc[b][n], gs[b][n]: queued payload (a partial state) or Nothing
           up,       \* up[b][n]: the mesh connection between b and n is established (symmetric)
           members,  \* members[b]: peers in b's member list (created by findPeer, removed by the router's GC callback)
-          live,     \* live[b][n]: the gossip bucket of link b -> n refers to b's live state (Gossip() hands out the
-                    \*   state object itself: what is sent is the state at pick time)
+          live,     \* live[b][n]: what the gossip bucket of link b -> n holds: "none" (nil), "live" (b's live state object:
+                    \*   Gossip() hands out the state itself, what is sent is the state at pick time) or "snap" (the
+                    \*   payload gs[b][n], possibly an empty one)
           wire,     \* wire[b][n]: sequence of [kind, p]
           now,      \* logical clock (every clock reading is later than all earlier ones)
           merged    \* observation: number of coalescing steps so far
@@ -59,7 +60,7 @@ GInit ==
     /\ gs = [b \in Brokers |-> [n \in Brokers |-> Nothing]]
     /\ up = [b \in Brokers |-> [n \in Brokers |-> b # n]]
     /\ members = [b \in Brokers |-> {}]
-    /\ live = [b \in Brokers |-> [n \in Brokers |-> FALSE]]
+    /\ live = [b \in Brokers |-> [n \in Brokers |-> "none"]]
     /\ wire = [b \in Brokers |-> [n \in Brokers |-> <<>>]]
     /\ now = 1 /\ merged = 0
 
@@ -81,13 +82,13 @@ ClientUnsub(b, s) == /\ s \in loc[b] /\ loc' = [loc EXCEPT ![b] = @ \ {s}] /\ No
                      /\ UNCHANGED <<routes, gs, up, members, live, wire>>
 
 (* periodic gossip: the full state is queued on the gossip bucket of every link *)
-GsBusy(b, n) == gs[b][n] # Nothing \/ live[b][n]
+GsBusy(b, n) == live[b][n] # "none"
 (* queue b's complete state on the gossip bucket of link b -> n.  An empty bucket then refers to the live state object
    (what is sent is the state at pick time); a non-empty bucket is coalesced: the new pending payload is a fresh union
    of what the bucket held and the state as it is now *)
 QueueFull(b, ns) ==
     /\ gs' = [gs EXCEPT ![b] = [n \in Brokers |-> IF n \in ns /\ GsBusy(b, n) THEN Join(@[n], st[b]) ELSE @[n]]]
-    /\ live' = [live EXCEPT ![b] = [n \in Brokers |-> IF n \in ns THEN ~GsBusy(b, n) ELSE @[n]]]
+    /\ live' = [live EXCEPT ![b] = [n \in Brokers |-> IF n \in ns THEN (IF GsBusy(b, n) THEN "snap" ELSE "live") ELSE @[n]]]
 Periodic(b) ==
     /\ QueueFull(b, Neigh(b))
     /\ merged' = merged + Cardinality({ n \in Neigh(b) : GsBusy(b, n) })
@@ -97,8 +98,8 @@ Periodic(b) ==
 Pick(b, n) ==
     /\ b # n /\ up[b][n] /\ (GsBusy(b, n) \/ bc[b][n] # Nothing)
     /\ IF GsBusy(b, n)
-       THEN /\ wire' = [wire EXCEPT ![b][n] = Append(@, [kind |-> "gossip", p |-> Join(gs[b][n], IF live[b][n] THEN st[b] ELSE Nothing)])]
-            /\ gs' = [gs EXCEPT ![b][n] = Nothing] /\ live' = [live EXCEPT ![b][n] = FALSE] /\ UNCHANGED bc
+       THEN /\ wire' = [wire EXCEPT ![b][n] = Append(@, [kind |-> "gossip", p |-> Join(gs[b][n], IF live[b][n] = "live" THEN st[b] ELSE Nothing)])]
+            /\ gs' = [gs EXCEPT ![b][n] = Nothing] /\ live' = [live EXCEPT ![b][n] = "none"] /\ UNCHANGED bc
        ELSE /\ wire' = [wire EXCEPT ![b][n] = Append(@, [kind |-> "broadcast", p |-> bc[b][n]])]
             /\ bc' = [bc EXCEPT ![b][n] = Nothing] /\ UNCHANGED <<gs, live>>
     /\ UNCHANGED <<loc, st, routes, up, members, now, merged>>
@@ -122,8 +123,8 @@ Deliver(b, n) ==
            /\ wire' = [wire EXCEPT ![b][n] = Tail(@)]
            /\ IF m.kind = "gossip" /\ dl # Nothing
               THEN /\ gs' = [gs EXCEPT ![n] = [x \in Brokers |-> IF x \in Neigh(n) \ {b}
-                                                                   THEN Join(Join(@[x], IF live[n][x] THEN s2 ELSE Nothing), dl) ELSE @[x]]]
-                   /\ live' = [live EXCEPT ![n] = [x \in Brokers |-> IF x \in Neigh(n) \ {b} THEN FALSE ELSE @[x]]]
+                                                                   THEN Join(Join(@[x], IF live[n][x] = "live" THEN s2 ELSE Nothing), dl) ELSE @[x]]]
+                   /\ live' = [live EXCEPT ![n] = [x \in Brokers |-> IF x \in Neigh(n) \ {b} THEN "snap" ELSE @[x]]]
                    /\ merged' = merged + Cardinality({ x \in Neigh(n) \ {b} : GsBusy(n, x) })
               ELSE UNCHANGED <<gs, live, merged>>
     /\ UNCHANGED <<loc, bc, up, now>>
@@ -134,14 +135,14 @@ LinkDown(b, n) ==
     /\ up' = [up EXCEPT ![b][n] = FALSE, ![n][b] = FALSE]
     /\ bc' = [bc EXCEPT ![b][n] = Nothing, ![n][b] = Nothing]
     /\ gs' = [gs EXCEPT ![b][n] = Nothing, ![n][b] = Nothing]
-    /\ live' = [live EXCEPT ![b][n] = FALSE, ![n][b] = FALSE]
+    /\ live' = [live EXCEPT ![b][n] = "none", ![n][b] = "none"]
     /\ wire' = [wire EXCEPT ![b][n] = <<>>, ![n][b] = <<>>]
     /\ UNCHANGED <<loc, st, routes, members, now, merged>>
 (* the connection comes back: each side sends its complete state down the new connection (mesh: sendAllGossipDown) *)
 LinkUp(b, n) ==
     /\ b # n /\ ~up[b][n]
     /\ up' = [up EXCEPT ![b][n] = TRUE, ![n][b] = TRUE]
-    /\ live' = [live EXCEPT ![b][n] = TRUE, ![n][b] = TRUE]        \* the buckets of a new connection are empty
+    /\ live' = [live EXCEPT ![b][n] = "live", ![n][b] = "live"]        \* the buckets of a new connection are empty
     /\ UNCHANGED <<loc, st, routes, bc, gs, members, wire, now, merged>>
 (* b's router garbage-collects the unreachable peer p (Swarm.onPeerOffline): p leaves the member list and b stops
    forwarding to it.  INTENDED: nothing else (the replicated entries of p stay; they are routed again when p is heard
@@ -170,7 +171,7 @@ GNext == \/ \E b, n \in Brokers : LinkDown(b, n) \/ LinkUp(b, n) \/ PeerGC(b, n)
 
 (* C05: once nothing is queued or in flight, every broker forwards a channel to exactly the brokers that have a live
    local subscriber for it *)
-Quiescent == \A b, n \in Brokers : (b # n => up[b][n]) /\ bc[b][n] = Nothing /\ gs[b][n] = Nothing /\ ~live[b][n] /\ wire[b][n] = <<>>
+Quiescent == \A b, n \in Brokers : (b # n => up[b][n]) /\ bc[b][n] = Nothing /\ live[b][n] = "none" /\ wire[b][n] = <<>>
 RoutingAtQuiescence ==
     Quiescent => \A b \in Brokers : routes[b] = { <<p, s>> \in Brokers \X Ssids : p # b /\ s \in loc[p] }
 (* a message published on broker b for ssid s: delivered to b's own client if subscribed, forwarded to exactly the
